@@ -58,9 +58,15 @@ CHECKS = {
  "C17": ("model_checking", "5 C17", "explicit-state breadth-first search over option-setter programs de-duplicated on the implementation's own state, every transition executed on the real object, outputs compared with the native API",
    "BFS from SvgOptions::new() to depth 3 (thorough 4) over a 78-operation alphabet including 12 malformed colour strings, position arrays of length 0-3, size without position and vice versa; every (state, operation) transition runs on the real object under catch_unwind; in every distinct state qr_svg is byte-compared with the native SvgBuilder configured from the abstract model; qr() compared with the native default build around every capacity edge; all 3906 short strings over {# 0 f g e-acute} through each colour setter.",
    "Hook H4 compiles src/wasm.rs for the host; the wasm32 target itself (32-bit usize) is not executed. Malformed colour strings may be ignored or leave any valid colour."),
+ "C19": ("fault_enumeration", "5 C19", "exhaustive enumeration of fault sequences up to 2 deviations on the real write path by LD_PRELOAD injection, call indices discovered from the syscall log",
+   "For SVG and PNG to_file on v1 and v10 (v25) symbols: 5 real OS faults and every (k-th open x 6 errno classes | k-th write x {ENOSPC, EIO, EDQUOT, EINTR, 3 short-write sizes}) sequence of <= 2 deviations, with and without a stale file; Ok implies file bytes = in-memory rendering; delivered hard fault implies Err; never a panic or abort (child process).",
+   "OS modelled by the shim's fault classes; close/fsync faults not modelled (crate does not fsync)."),
  "C18": ("exploration", "5 C18", "bounded exhaustive enumeration of frame configurations, attributes parsed back from the SVG",
    "All 2040 default placements (40 versions x 3 frame shapes x margins 0..16) and ~50k (100k thorough) override combinations: square, centred, module-aligned, monotone, < 40 %, clear of finders, image centred and no larger; overrides: requested size, gap (less at most one module), position honoured.",
    "Real-valued overrides are a finite grid (the property says sampled)."),
+ "C14": ("model_checking", "5 C14", "explicit-state search over call histories replayed on real builders (pristine child processes as oracle) + stateless exploration of all thread interleavings at guarded scheduling points under a controlled scheduler with iterative preemption bounding",
+   "(a) all builder call sequences of depth 4 (thorough 5) for 3 inputs, every build compared with a fresh builder in a pristine child process and with the reference encoder; (b) all SvgBuilder/terminal sequences of depth 4 and ImageBuilder sequences of depth 3 (4): every render equals a fresh renderer's, QRCode untouched, renders recomputed in reverse order in a fresh process; (c) 6 thread programs (2-3 real threads, incl. a shared &QRBuilder) under a controlled scheduler: all interleavings with <= 1-2 preemptions on the fine point set (~80 points per build) and <= 2-3 on the coarse set; every thread's result = sequential pristine result; racy canary as vacuity guard; replay-twice determinism gate.",
+   "Preemption only at hook H3 points; no memory-model exploration (no atomics in the crate; source scan reported in the evidence). Free-running 16-thread pass is supplementary sampling."),
  "C15": ("exploration", "5 C15", "bounded exhaustive enumeration of configurations, computed region map as oracle",
    "module_type() at each of the 477 320 coordinates of the 40 sizes, under all levels/masks/modes and several payloads, equals R's ISO region map; data-label count = 8 x codewords + remainder bits.",
    "Either label accepted where an alignment pattern overlaps a timing line."),
